@@ -595,6 +595,131 @@ def gate(ctx, binp, drv):
     if pipe_cases:
         ctx.samples.append({"request": f"fft64 {pipe_cases[0][0]} k={pipe_cases[0][1]} rows={pipe_cases[0][2]} classes={pipe_cases[0][6]}/{pipe_cases[0][7]} total_bits={pipe_cases[0][3]}"})
 
+    # ---------------------------------------------------------------- 3b. convolution path (both back ends)
+    def col(n, size, bits, cls):
+        return [coeff_vec(rng, n, bits, cls) for _ in range(size)]
+
+    def sc(c):
+        return ";".join(csv(v) for v in c)
+
+    def bivariate(a, b, n):
+        """exact limbs of the bivariate product: coefficient kk = Σ_j a[kk-j] ⋆ b[j]"""
+        out = {}
+        for i, x in enumerate(a):
+            for j, y in enumerate(b):
+                p = negacyclic(x, y)
+                out[i + j] = [u + v for u, v in zip(out.get(i + j, [0] * n), p)]
+        return out
+
+    def prep(a, size, mask, n):
+        ms = min(size, len(a))
+        outp = []
+        for j in range(size):
+            if j + 1 == ms:
+                outp.append([((x & mask) + (1 << 63)) % (1 << 64) - (1 << 63) for x in a[j]])
+            elif j < ms:
+                outp.append(list(a[j]))
+            else:
+                outp.append([0] * n)
+        return outp
+
+    chl, cdl, cmeta = [], [], []
+    for k in [k for k in Ks if k in tabs and 2 <= k <= (7 if quick else 10)]:
+        n = 2 << k
+        for _ in range(4 if quick else 8):
+            asz, bsz = rng.range(1, 4), rng.range(1, 4)
+            sl, sr, rs, off = rng.range(1, 5), rng.range(1, 5), rng.range(1, 7), rng.range(0, 6)
+            bits = rng.choice([6, 12, 16, 18])
+            cls = rng.choice(["random", "random", "allmax", "alt", "sparse"])
+            ml = rng.choice([-1, -1, -(1 << rng.range(1, 10)), 0xFFFF])
+            mr = rng.choice([-1, -(1 << 3)])
+            for be in ("ref", "avx"):
+                a, b = col(n, asz, bits, cls), col(n, bsz, bits, cls)
+                base = f"be={be} k={k} rs={rs} off={off} sl={sl} sr={sr} ml={ml} mr={mr}"
+                i = len(chl)
+                chl.append(f"{i} cnv {base} a={sc(a)} b={sc(b)}")
+                cdl.append(f"{i} fft64 cnv {base} omg={omg(k, 0)} iomg={omg(k, 1)} a={sc(a)} b={sc(b)}")
+                cmeta.append(("cnv", be, k, rs, off, sl, sr, ml, mr, [a], [b], cls, bits))
+                a1, b1 = col(n, asz, bits, cls), col(n, bsz, bits, cls)
+                i = len(chl)
+                chl.append(f"{i} cnvp {base} a0={sc(a)} a1={sc(a1)} b0={sc(b)} b1={sc(b1)}")
+                cdl.append(f"{i} fft64 cnvp {base} omg={omg(k, 0)} iomg={omg(k, 1)} a0={sc(a)} a1={sc(a1)} b0={sc(b)} b1={sc(b1)}")
+                cmeta.append(("cnvp", be, k, rs, off, sl, sr, ml, mr, [a, a1], [b, b1], cls, bits))
+                ab, cb = rng.choice([12, 20, 31, 33, 62]), rng.choice([12, 20, 31, 40, 62])
+                ac = col(n, asz, ab, "random")
+                c = [rng.range(-(1 << cb), 1 << cb) for _ in range(bsz)]
+                i = len(chl)
+                chl.append(f"{i} cnvc be={be} k={k} rs={rs} off={off} a={sc(ac)} c={csv(c)}")
+                cdl.append(chl[-1].replace(" ", " fft64 ", 1))
+                cmeta.append(("cnvc", be, k, rs, off, 0, 0, -1, -1, [ac], [c], "random", max(ab, cb)))
+    ciout, cmout = both(chl, cdl)
+    nb = 0
+    cnv_oracle = {"checked": 0, "inexact": 0, "avx_by_const_32bit_truncation": 0}
+    for i, mt in enumerate(cmeta):
+        a_, b_ = ans_of(ciout, i), ans_of(cmout, i)
+        op, be, k, rs, off, sl, sr, ml, mr, A_, B_, cls, bits = mt
+        n = 2 << k
+        ctx.count_case(("fft64-cnv", op, be, k, cls, bits, rs, off), cls != "zero")
+        hist[f"{op}:{be}"] = hist.get(f"{op}:{be}", 0) + 1
+        if a_ != b_:
+            nb += 1
+            if nb <= 3:
+                disagree(f"fft64 {op} ({be}): implementation and model differ", chl[i].split(" ", 1)[1][:3000], a_, b_, True, {"k": k})
+            continue
+        if a_.startswith(("panic", "err")):
+            continue
+        # oracle: the exact bivariate product (prepared operands, cnv_offset, truncation)
+        got = [list(map(int, l.split(","))) for l in a_.split(";")]
+        if op == "cnvc":
+            a0, cst = A_[0], B_[0]
+            bound = len(a0) + len(cst) - 1
+            ms, o2 = min(rs, bound), min(off, bound)
+            ex = []
+            for kk in range(rs):
+                acc = [0] * n
+                if kk < ms:
+                    for j in range(len(cst)):
+                        if 0 <= kk + o2 - j < len(a0):
+                            acc = [x + cst[j] * y for x, y in zip(acc, a0[kk + o2 - j])]
+                ex.append([(x + (1 << 63)) % (1 << 64) - (1 << 63) for x in acc])
+            cnv_oracle["checked"] += 1
+            if got != ex:
+                if be == "avx" and bits > 31:
+                    cnv_oracle["avx_by_const_32bit_truncation"] += 1
+                    key = "poulpy-cpu-avx/src/fft64/convolution.rs:i64_convolution_by_const_*_avx:operands-beyond-i32"
+                    w = {"request": chl[i].split(" ", 1)[1][:2000], "implementation": a_[:600], "exact": ";".join(csv(l) for l in ex)[:600],
+                         "replay": "printf '0 <request>\\n' | harness/target/release/pvh fft64"}
+                    if ctx.match_known(key) is not None:
+                        ctx.violation("FFT64Avx cnv_by_const_apply multiplies only the low 32 bits of its operands (_mm256_mul_epi32)", w, True, key=key)
+                    else:
+                        # proposed known finding (docs/C07.md): recorded as an observation until the coordinator lists the key
+                        cnv_oracle.setdefault("avx_by_const_witness", w)
+                else:
+                    ctx.oracle_failures += 1
+                    broken.append(f"cnv_by_const ({be}) differs from the exact product")
+                    disagree(f"cnv_by_const_apply ({be}) differs from the exact i64 product", chl[i].split(" ", 1)[1][:3000], a_, ";".join(csv(l) for l in ex), True)
+            continue
+        if op == "cnv":
+            pa, pb = prep(A_[0], sl, ml, n), prep(B_[0], sr, mr, n)
+        else:
+            pa0, pa1 = prep(A_[0], sl, ml, n), prep(A_[1], sl, ml, n)
+            pb0, pb1 = prep(B_[0], sr, mr, n), prep(B_[1], sr, mr, n)
+            pa = [[x + y for x, y in zip(u, v)] for u, v in zip(pa0, pa1)]
+            pb = [[x + y for x, y in zip(u, v)] for u, v in zip(pb0, pb1)]
+        biv = bivariate(pa, pb, n)
+        bound = len(pa) + len(pb) - 1
+        ms, o2 = min(rs, bound), min(off, bound)
+        ex = [biv.get(kk + o2, [0] * n) if kk < ms else [0] * n for kk in range(rs)]
+        cnv_oracle["checked"] += 1
+        if got != ex:
+            cnv_oracle["inexact"] += 1
+            ctx.oracle_failures += 1
+            broken.append(f"fft64 {op} ({be}) differs from the exact bivariate product (k={k}, {bits} bits)")
+            disagree(f"FFT64 {op} ({be}) differs from the exact bivariate convolution inside the magnitude domain", chl[i].split(" ", 1)[1][:3000], a_[:1000], ";".join(csv(l) for l in ex)[:1000], True)
+    if nb:
+        broken.append(f"{nb} convolution disagreements")
+    ctx.cov["fft64_cnv_oracle"] = cnv_oracle
+
     # ---------------------------------------------------------------- 4. model-only worst-case search (evidence)
     search = {}
     ks_search = [k for k in ([1, 2, 3, 4, 5, 6, 7] if quick else list(range(1, 11))) if k in tabs]
